@@ -27,7 +27,8 @@ def gen_cases(rng, tier, drift):
     for i in range(nproc):
         n_items = rng.randint(3, 9)
         out.append(dict(kind="proc", n=n_items, nw=rng.choice([1, 2, 3]), die_at=rng.randint(0, n_items - 1), in_order=rng.random() < 0.7,
-                        mode=rng.choice(["in_udf", "in_udf", "idle"]), extra=rng.randint(1, 3)))
+                        mode=rng.choice(["in_udf", "in_udf", "idle"]), extra=rng.randint(1, 3),
+                        how=rng.choice(["kill", "kill", "exit0", "sysexit", "exit3"])))
     for i in range(nrt):
         n_items = rng.randint(2, 8)
         out.append(dict(kind="rt", node=rng.choice(["pf", "pm", "pm"]), n=n_items, src_err=rng.choice([None, rng.randint(0, n_items)]),
@@ -40,13 +41,23 @@ def oracle(c, r, ref_fails):
 
 
 class KillAt:
-    def __init__(self, at):
-        self.at = at
+    """the worker process dies while mapping item `at`: SIGKILL, os._exit(0) (a death with a CLEAN exit status),
+    sys.exit() (SystemExit is not an Exception: _apply_udf does not catch it) or os._exit(3)"""
+
+    def __init__(self, at, how="kill"):
+        self.at, self.how = at, how
 
     def __call__(self, x):
         if x == self.at:
             import os
             import signal
+            import sys
+            if self.how == "exit0":
+                os._exit(0)
+            if self.how == "exit3":
+                os._exit(3)
+            if self.how == "sysexit":
+                sys.exit()
             os.kill(os.getpid(), signal.SIGKILL)
         return x + 100
 
@@ -76,7 +87,7 @@ def run_proc(c):
 
     from torchdata.nodes import IterableWrapper, ParallelMapper
     n = c["n"]
-    udf = KillAt(c["die_at"] if c["mode"] == "in_udf" else -1)
+    udf = KillAt(c["die_at"] if c["mode"] == "in_udf" else -1, c.get("how", "kill"))
     node = ParallelMapper(IterableWrapper(list(range(n))), udf, num_workers=c["nw"], in_order=c["in_order"], method="process",
                           multiprocessing_context="fork")
     node.reset()
